@@ -52,9 +52,9 @@ AllSteps ==
   \cup On("post", UNION {{[op |-> "post", path |-> p, parent |-> par, title |-> t, body |-> b, date |-> D0]
                             : par \in {0} \cup ArtIds(p), t \in Titles, b \in Bodies}
                           : p \in {q \in N : Cardinality(ArtIds(q)) < MaxArts}})
-  \cup On("delart", UNION {{[op |-> "delart", path |-> p, id |-> i]
-                              : i \in ArtIds(p) \cup (IF Thin THEN {} ELSE {MissingId(nodes[p].arts)})} : p \in N}
-                     \cup (IF Thin THEN {} ELSE {[op |-> "delart", path |-> p, id |-> 1] : p \in Ghosts}))
+  \cup On("delart", UNION {{[op |-> "delart", path |-> p, id |-> i, rec |-> rc]
+                              : i \in ArtIds(p) \cup (IF Thin THEN {} ELSE {MissingId(nodes[p].arts)}), rc \in {-1, 0, 1}} : p \in N}
+                     \cup (IF Thin THEN {} ELSE {[op |-> "delart", path |-> p, id |-> 1, rec |-> -1] : p \in Ghosts}))
   \cup On("delitem", {[op |-> "delitem", path |-> p] : p \in N \cup (IF Thin THEN {} ELSE Ghosts)})
   \cup On("get", UNION {{[op |-> "get", path |-> p, id |-> i]
                            : i \in (IF Thin THEN {} ELSE {MissingId(nodes[p].arts)}) \cup {j \in ArtIds(p) : j = Max(ArtIds(p))}} : p \in N})
